@@ -4,6 +4,7 @@ import (
 	"fmt"
 	"go/ast"
 	"go/constant"
+	"go/types"
 )
 
 func runC01(c *Ctx) {
@@ -189,6 +190,77 @@ func runC01(c *Ctx) {
 			}
 		}
 	}
+	// R6: nothing-to-commit guard.
+	r6 := c.Rule("R6", "phase1Commit returns early when nothing is tracked, so every non-error exit of itemActionTracker.Add/Update/Remove must leave the action recorded in the `items` map that hasTrackedItems / lock / checkTrackedItems iterate (an entry found there already, or the cancellation of a pending add, are the accepted idioms)", 4)
+	{
+		items := w.Field("common", "itemActionTracker", "items")
+		// the guard itself: hasTrackedItems looks at len(items)
+		fh := w.Fn("common.itemActionTracker.hasTrackedItems")
+		c.Analysed(fh)
+		c.Check(mentionsObj(fh.Pkg.TypesInfo, fh.Body, items), r6, "hasTrackedItems looks at the items map", fh.Decl.Pos(), "reads t.items", "the nothing-to-commit guard no longer looks at the items map (rule needs re-anchoring)", nil)
+		for _, k := range []string{"common.itemActionTracker.Add", "common.itemActionTracker.Update", "common.itemActionTracker.Remove"} {
+			f := w.Fn(k)
+			g := w.G(f)
+			c.Analysed(f)
+			info := f.Pkg.TypesInfo
+			records := func(n *GNode) bool {
+				switch st := n.Ast.(type) {
+				case *ast.AssignStmt:
+					for _, l := range st.Lhs {
+						if ix, ok := ast.Unparen(l).(*ast.IndexExpr); ok && fieldOfSelector(info, ix.X) == items {
+							return true
+						}
+					}
+				case *ast.ExprStmt:
+					// delete(t.items, id): cancellation of a pending add
+					if call, ok := st.X.(*ast.CallExpr); ok && w.resolveCall(f, call).Key == "builtin.delete" && len(call.Args) == 2 && fieldOfSelector(info, call.Args[0]) == items {
+						return true
+					}
+				}
+				return false
+			}
+			// comma-ok lookups of items: `v, ok := t.items[id]` - the ok edge means an entry exists already
+			var okVars []*types.Var
+			for _, n := range g.Nodes {
+				as, isAs := n.Ast.(*ast.AssignStmt)
+				if !isAs || len(as.Lhs) != 2 || len(as.Rhs) != 1 {
+					continue
+				}
+				if ix, isIx := ast.Unparen(as.Rhs[0]).(*ast.IndexExpr); isIx && fieldOfSelector(info, ix.X) == items {
+					if id, isID := as.Lhs[1].(*ast.Ident); isID {
+						if v, isV := info.Defs[id].(*types.Var); isV {
+							okVars = append(okVars, v)
+						} else if v, isV := info.Uses[id].(*types.Var); isV {
+							okVars = append(okVars, v)
+						}
+					}
+				}
+			}
+			found := g.condNodes(func(e ast.Expr) bool {
+				id, isID := e.(*ast.Ident)
+				if !isID {
+					return false
+				}
+				for _, v := range okVars {
+					if info.Uses[id] == types.Object(v) {
+						return true
+					}
+				}
+				return false
+			})
+			cut := edgeCut(found, 1)
+			r := g.Reach([]int{g.Entry}, records, cut)
+			var offs []Offence
+			for _, x := range g.Nodes {
+				if r.Seen[x.ID] && x.Ret != nil && !records(x) && g.ClassifyReturn(x) != RetNonNil {
+					offs = append(offs, Offence{x, r.Path(x.ID)})
+				}
+			}
+			c.Offences(g, offs, r6, shortKey(k)+": every non-error exit leaves the action tracked", f.Decl.Pos(), "each non-error return is preceded by a write of t.items (or an existing entry / cancelled add)",
+				"an item action can succeed without being recorded in the tracker's items map: a transaction consisting only of such actions has nothing tracked, phase1Commit returns at its nothing-to-commit guard and Commit reports success without committing the change")
+		}
+	}
+
 	// R7: what a failed phase 2 restores is the PRE-commit handle state.
 	r7 := c.Rule("R7", "a commit that fails at or after the commit point restores pre-commit handles: phase1Commit writes the handles' pre-images to the priority log before activateInactiveNodes/touchNodes flip them in place, from exactly the slices those calls receive (shared with C08.R2)", 4)
 	rulePreImagesBeforeFlip(c, r7)
